@@ -52,6 +52,7 @@ struct Property
 {
 	virtual ~Property() {}
 	virtual const char *id() const = 0;
+	virtual const char *report_id() const { return id(); } // property id used in VIOLATION lines (a check may consist of two batches)
 	virtual const char *level() const = 0;       // "exploration" | "fault_enumeration"
 	virtual const char *variant() const { return "asan"; } // which binary runs it
 	virtual std::string rule() const = 0;        // evidence: how cases are generated, what is non-trivial/distinct
@@ -99,6 +100,12 @@ struct Outcome
 };
 // run one plan in this process
 Outcome execute_plan(Property &prop, const Plan &plan, bool capture = false);
+
+// merge the outcome of a nested execution (e.g. fresh process) into the current run
+void adopt_outcome(RunCtx &ctx, const Outcome &o);
+// run one plan in a fresh process (exec of this binary in replay mode) and bring back outcome, coverage and counters;
+// for properties that depend on process-wide once-only state (e.g. the hash seed race)
+bool execute_plan_fresh_process(Property &prop, const Plan &plan, Outcome &out);
 
 int driver_main(int argc, char **argv);
 extern const char *g_exe_path;
